@@ -411,7 +411,8 @@ class _StaticComps(ast.NodeTransformer):
             return n
         if isinstance(f, ast.Name) and f.id in ("all", "any"):
             if len(elts) == 1:
-                return n
+                # all([a == b]) is a == b (a comparison already is a truth value); any other single operand stays (all(x) is bool(x), not x)
+                return elts[0] if isinstance(elts[0], ast.Compare) else n
             return ast.copy_location(ast.BoolOp(op=ast.And() if f.id == "all" else ast.Or(), values=elts), n)
         if isinstance(f, ast.Name) and f.id == "tuple":
             return ast.copy_location(ast.Tuple(elts=elts, ctx=ast.Load()), n)
